@@ -16,6 +16,7 @@ Part 2  `Agg`: the combining aggregator of include/oneapi/tbb/detail/_aggregator
 -/
 import TbbVerif.Core.Sched
 import TbbVerif.Core.Proto
+import TbbVerif.Generated.C13
 
 namespace TbbVerif.C13
 
@@ -85,18 +86,22 @@ def reheap (h : Heap) : Heap :=
   let d2 := d1.dropLast
   { data := d2, mark := if h.mark > d2.length then d2.length else h.mark }
 
-/-- An operation of a batch: `push x` (with `throws = true` when copying the element throws) or `try_pop`. -/
+/-- An operation of a batch: `push x` (with `throws = true` when copying the element throws) or `try_pop`
+(with `throws = true` when assigning the popped element to the caller's object throws). -/
 inductive Op where
   | push (x : Nat) (throws : Bool)
-  | pop
+  | pop (throws : Bool)
 deriving Repr, DecidableEq, Inhabited
 
-/-- What the caller of an operation observes: status SUCCEEDED/FAILED and, for a successful pop, the element. -/
+/-- What the caller of an operation observes: status SUCCEEDED/FAILED and, for a successful pop, the element;
+`exc own`: the call was left by an exception that escaped `handle_operations` (`own`: it was thrown by this
+caller's own operation). -/
 inductive Res where
   | pushOk
   | pushFailed
   | popOk (v : Nat)
   | popFailed
+  | exc (own : Bool)
 deriving Repr, DecidableEq, Inhabited
 
 /-- "operation `idx` of the batch got its status (and result)"; the log lists them in the order in which
@@ -107,57 +112,98 @@ structure Ev where
   res : Res
 deriving Repr, DecidableEq, Inhabited
 
+/-- regenerated from the source on every run: is the element assignment of a pop (`*(tmp->elem) = std::move(…)`)
+inside a try block whose handler stores FAILED and continues with the next operation?  In the pinned tree: no. -/
+abbrev guarded : Bool := Generated.C13.popAssignGuarded
+
 /-- `mark < data.size() && my_compare(data[0], data.back())` -/
 def shortcut (h : Heap) : Bool := h.mark < h.data.length && get h.data 0 < back h.data
 
-/-- First pass (concurrent_priority_queue.h:259-308) over the operation list (head first).
-Result: state, statuses set in this pass, the deferred pops in the order in which the second pass will
-visit them (`pop_list` is a stack). -/
-def pass1 (h : Heap) : List (Op × Nat) → Heap × List Ev × List Nat
-  | [] => (h, [], [])
-  | (.pop, i) :: rest =>
+/-- result of the first pass: state, statuses set in this pass (in order), the deferred pops (index, does its
+assignment throw) in the order in which the second pass will visit them (`pop_list` is a stack), and
+`abort = some i` if the element assignment of pop `i` threw: `*(tmp->elem) = std::move(data.back())` is outside
+any try block, so the exception leaves `handle_operations` at that point — nothing after it is executed. -/
+structure P1 where
+  heap : Heap
+  log : List Ev
+  dfr : List (Nat × Bool)
+  abort : Option Nat
+
+/-- First pass (concurrent_priority_queue.h:259-308) over the operation list (head first). -/
+def pass1 (h : Heap) : List (Op × Nat) → P1
+  | [] => ⟨h, [], [], none⟩
+  | (.pop thr, i) :: rest =>
     if shortcut h then
-      let r := pass1 { h with data := h.data.dropLast } rest
-      (r.1, ⟨i, .pop, .popOk (back h.data)⟩ :: r.2.1, r.2.2)
+      if thr then
+        if guarded then      -- (a repaired tree) FAILED + the exception is handed to this pop's caller; nothing else changes
+          let r := pass1 h rest
+          { r with log := ⟨i, .pop thr, .exc true⟩ :: r.log }
+        else ⟨h, [], [], some i⟩
+      else
+        let r := pass1 { h with data := h.data.dropLast } rest
+        { r with log := ⟨i, .pop thr, .popOk (back h.data)⟩ :: r.log }
     else
       let r := pass1 h rest
-      (r.1, r.2.1, r.2.2 ++ [i])
+      { r with dfr := r.dfr ++ [(i, thr)] }
   | (.push x thr, i) :: rest =>
     if thr then
       let r := pass1 h rest
-      (r.1, ⟨i, .push x thr, .pushFailed⟩ :: r.2.1, r.2.2)
+      { r with log := ⟨i, .push x thr, .pushFailed⟩ :: r.log }
     else
       let r := pass1 { h with data := h.data ++ [x] } rest
-      (r.1, ⟨i, .push x thr, .pushOk⟩ :: r.2.1, r.2.2)
+      { r with log := ⟨i, .push x thr, .pushOk⟩ :: r.log }
+
+structure P2 where
+  heap : Heap
+  log : List Ev
+  abort : Option Nat
 
 /-- Second pass (concurrent_priority_queue.h:311-334) over the deferred pops. -/
-def pass2 (h : Heap) : List Nat → Heap × List Ev
-  | [] => (h, [])
-  | i :: rest =>
+def pass2 (h : Heap) : List (Nat × Bool) → P2
+  | [] => ⟨h, [], none⟩
+  | (i, thr) :: rest =>
     if h.data.length = 0 then
       let r := pass2 h rest
-      (r.1, ⟨i, .pop, .popFailed⟩ :: r.2)
+      { r with log := ⟨i, .pop thr, .popFailed⟩ :: r.log }
+    else if thr then
+      if guarded then
+        let r := pass2 h rest
+        { r with log := ⟨i, .pop thr, .exc true⟩ :: r.log }
+      else ⟨h, [], some i⟩
     else if shortcut h then
       let r := pass2 { h with data := h.data.dropLast } rest
-      (r.1, ⟨i, .pop, .popOk (back h.data)⟩ :: r.2)
+      { r with log := ⟨i, .pop thr, .popOk (back h.data)⟩ :: r.log }
     else
       let r := pass2 (reheap h) rest
-      (r.1, ⟨i, .pop, .popOk (get h.data 0)⟩ :: r.2)
+      { r with log := ⟨i, .pop thr, .popOk (get h.data 0)⟩ :: r.log }
 
 /-- `if (mark < data.size()) heapify();` -/
 def finish (h : Heap) : Heap := if h.mark < h.data.length then heapify h else h
 
+/-- outcome of `handle_operations`: final state, status log, and `abort = some i` when it was left by the
+exception of pop `i`'s element assignment (then the remaining operations have no status, the tail is not
+heapified, and — one level up — `handler_busy` is never released). -/
+structure Out where
+  heap : Heap
+  log : List Ev
+  abort : Option Nat
+
 /-- `handle_operations` on an indexed operation list. -/
-def handleIdx (h : Heap) (ops : List (Op × Nat)) : Heap × List Ev :=
+def handleIdx (h : Heap) (ops : List (Op × Nat)) : Out :=
   let r1 := pass1 h ops
-  let r2 := pass2 r1.1 r1.2.2
-  (finish r2.1, r1.2.1 ++ r2.2)
+  match r1.abort with
+  | some i => ⟨r1.heap, r1.log, some i⟩
+  | none =>
+    let r2 := pass2 r1.heap r1.dfr
+    match r2.abort with
+    | some i => ⟨r2.heap, r1.log ++ r2.log, some i⟩
+    | none => ⟨finish r2.heap, r1.log ++ r2.log, none⟩
 
 /-- `handle_operations(op_list)`: operation `i` of the list gets index `i`. -/
-def handleOps (h : Heap) (ops : List Op) : Heap × List Ev := handleIdx h ops.zipIdx
+def handleOps (h : Heap) (ops : List Op) : Out := handleIdx h ops.zipIdx
 
 /-- The code asserts `mark == data.size()` on entry; other states are rejected. -/
-def handleOperations? (h : Heap) (ops : List Op) : Option (Heap × List Ev) :=
+def handleOperations? (h : Heap) (ops : List Op) : Option Out :=
   if h.mark = h.data.length then some (handleOps h ops) else none
 
 /-- result of operation `i` -/
@@ -167,12 +213,14 @@ def resultOf (log : List Ev) (i : Nat) : Option Res := (log.find? (·.idx == i))
 
 /-- One operation of the sequential spec on the contents `s` (a list read as a multiset): a non-throwing
 push inserts and succeeds, a throwing push fails and changes nothing, a pop on non-empty contents returns a
-maximal element and removes one copy of it, a pop fails exactly on empty contents. -/
+maximal element and removes one copy of it, a pop fails exactly on empty contents; a pop whose element
+assignment throws on non-empty contents ends with that exception at its own caller and changes nothing. -/
 def specStep (s : List Nat) : Op × Res → Option (List Nat)
   | (.push x false, .pushOk) => some (x :: s)
   | (.push _ true, .pushFailed) => some s
-  | (.pop, .popOk v) => if v ∈ s ∧ ∀ y ∈ s, y ≤ v then some (s.erase v) else none
-  | (.pop, .popFailed) => if s = [] then some s else none
+  | (.pop false, .popOk v) => if v ∈ s ∧ ∀ y ∈ s, y ≤ v then some (s.erase v) else none
+  | (.pop _, .popFailed) => if s = [] then some s else none
+  | (.pop true, .exc true) => if s = [] then none else some s   -- the assignment's exception reaches its own caller; nothing is lost
   | _ => none
 
 def specRun (s : List Nat) : List (Op × Res) → Option (List Nat)
@@ -187,10 +235,12 @@ def showRes : Res → String
   | .pushFailed => "F"
   | .popOk v => s!"S:{v}"
   | .popFailed => "F"
+  | .exc own => if own then "E" else "X"
 
 open Proto in
 def parseOp (w : String) : Option Op :=
-  if w == "o" then some .pop
+  if w == "o" then some (.pop false)
+  else if w == "x" then some (.pop true)
   else if w.startsWith "p" || w.startsWith "m" then (nat? (w.drop 1).toString).map (fun x => .push x false)
   else if w.startsWith "t" then (nat? (w.drop 1).toString).map (fun x => .push x true)
   else none
@@ -209,12 +259,14 @@ def runBatches (h : Heap) : List (List Op) → List String
   | [] => []
   | ops :: rest =>
     match handleOperations? h ops with
-    | some (hf, log) =>
-      let rs := (List.range ops.length).map (fun i => match resultOf log i with
+    | some o =>
+      let rs := (List.range ops.length).map (fun i => match resultOf o.log i with
         | some r => showRes r
         | none => "W")
-      let line := if rs.isEmpty then s!"| {showHeap hf}" else s!"{" ".intercalate rs} | {showHeap hf}"
-      line :: runBatches hf rest
+      let line := if rs.isEmpty then s!"| {showHeap o.heap}" else s!"{" ".intercalate rs} | {showHeap o.heap}"
+      match o.abort with
+      | some _ => [line ++ " EXCEPTION-ESCAPED"]      -- handle_operations was left by an exception: nothing more is defined
+      | none => line :: runBatches o.heap rest
     | none => ["assert-mark"]
 
 open Proto in
@@ -242,7 +294,10 @@ def driver : Proto.Driver := Proto.pureDriver drive
 /-! ## Part 2: the combining aggregator with the priority queue's handler, one step per atomic access
 
 Threads are `Tid`s; an operation node (`cpq_operation op_data` on its caller's stack) is identified with its
-owner — a thread has at most one operation in flight.  `pending_operations` (a LIFO of nodes linked through
+owner — a thread has at most one operation in flight.  Pointer *values* (what `res`, `next` and the CAS on
+`pending_operations` compare) are pairs (owner, `cls`), `cls` = which of the owner's stack slots holds the
+node: consecutive operations of a thread reuse the same address when they come from the same function
+(`push(const&)`, `push(&&)`, `try_pop`), which makes the ABA case of the CAS real (and harmless).  `pending_operations` (a LIFO of nodes linked through
 `next`) is the list `plist` (top first); the handler's `op_list` / `pop_list` iterators are the lists `rem` /
 `dfr` of nodes still to be visited; the `next` fields are kept as data (they are what the atomic loads/stores
 read and write) and agree with those lists (`Proofs`).  Control follows the code of
@@ -274,12 +329,14 @@ deriving Repr, DecidableEq, Inhabited
 
 structure Th where
   pc : Pc := .idle
-  todo : List Op := []          -- calls still to be made by this thread
-  op : Op := .pop               -- op_data: type and pushed value
-  res : Option Tid := none      -- local `res`
+  todo : List (Op × Nat) := []  -- calls still to be made by this thread, each with the address class of its node
+  op : Op := .pop false         -- op_data: type and pushed value
+  cls : Nat := 0                -- address class of op_data
+  res : Option (Tid × Nat) := none   -- local `res`
   status : Nat := 0             -- op_data.status (0 = WAIT, 1 = SUCCEEDED, 2 = FAILED)
-  next : Option Tid := none     -- op_data.next
+  next : Option (Tid × Nat) := none  -- op_data.next
   elem : Option Nat := none     -- `*elem` of a pop: the value the handler moved out
+  eptr : Bool := false          -- (repaired tree) the exception of the element assignment, to be rethrown by try_pop
   rem : List Tid := []          -- handler: nodes of op_list (pass 1) / pop_list (pass 2) still to visit
   dfr : List Tid := []          -- handler: pop_list while pass 1 builds it
   tmp : Tid := 0                -- handler: `tmp`
@@ -305,6 +362,11 @@ structure St where
 namespace St
 def modTh (s : St) (t : Tid) (f : Th → Th) : St := { s with ths := fun u => if u = t then f (s.ths u) else s.ths u }
 end St
+
+/-- the pointer value of a node -/
+def nodeOf (s : St) (u : Tid) : Tid × Nat := (u, (s.ths u).cls)
+/-- the value of `pending_operations` -/
+def headNode (s : St) : Option (Tid × Nat) := s.plist.head?.map (nodeOf s)
 
 /-- pcs between the exchange that grabs a batch and the release of `handler_busy` (the handler is active) -/
 def Pc.active : Pc → Bool
@@ -345,7 +407,20 @@ def adv2 (s : St) (t : Tid) : St :=
 def resultOfCall (th : Th) : Res :=
   match th.op with
   | .push _ _ => if th.status = 1 then .pushOk else .pushFailed
-  | .pop => if th.status = 1 then .popOk (th.elem.getD 0) else .popFailed
+  | .pop _ => if th.status = 1 then .popOk (th.elem.getD 0) else if th.eptr then .exc true else .popFailed
+
+/-- does assigning the popped element to this operation's `*elem` throw? -/
+def popThrows : Op → Bool
+  | .pop true => true
+  | _ => false
+
+/-- AS CODED: the element assignment of `u`'s pop throws inside `handle_operations`, which has no handler
+for it: the exception unwinds through `start_handle_operations` and `execute` into the push/try_pop call of
+the HANDLER thread `t` and reaches `t`'s caller (`exc own`, `own` iff the throwing pop is `t`'s own
+operation).  `handler_busy` stays 1, `u` and every operation of the batch not yet visited keep status 0. -/
+def unwind (s : St) (t u : Tid) : St :=
+  s.modTh t (fun x => { x with pc := .idle, results := x.results ++ [.exc (decide (u = t))], nRet := x.nRet + 1,
+                                rem := [], dfr := [] })
 
 /-- one atomic access (and the non-atomic code up to the next one) of thread `t` -/
 def aggStep (s : St) (t : Tid) : St :=
@@ -354,13 +429,14 @@ def aggStep (s : St) (t : Tid) : St :=
   | .idle =>
     match th.todo with
     | [] => s
-    | o :: rest => s.modTh t (fun x => { x with pc := .ldPend, todo := rest, op := o, status := 0, next := none, elem := none })
-  | .ldPend => s.modTh t (fun x => { x with pc := .stNext, res := s.plist.head? })
+    | (o, c) :: rest =>
+      s.modTh t (fun x => { x with pc := .ldPend, todo := rest, op := o, cls := c, status := 0, next := none, elem := none, eptr := false })
+  | .ldPend => s.modTh t (fun x => { x with pc := .stNext, res := headNode s })
   | .stNext => s.modTh t (fun x => { x with pc := .cas, next := x.res })
   | .cas =>
-    if s.plist.head? = th.res then
+    if headNode s = th.res then
       { s.modTh t (fun x => { x with pc := if x.res = none then .waitBusy else .spin, nSub := x.nSub + 1 }) with plist := t :: s.plist }
-    else s.modTh t (fun x => { x with pc := .stNext, res := s.plist.head? })
+    else s.modTh t (fun x => { x with pc := .stNext, res := headNode s })
   | .spin => if th.status ≠ 0 then s.modTh t (fun x => { x with pc := .rdStatus }) else s
   | .waitBusy => if s.busy = 0 then s.modTh t (fun x => { x with pc := .setBusy }) else s
   | .setBusy => { s.modTh t (fun x => { x with pc := .grab }) with busy := 1 }
@@ -373,26 +449,31 @@ def aggStep (s : St) (t : Tid) : St :=
     | [] => adv1 (s.modTh t (fun x => { x with pc := .p1Adv })) t
     | u :: rest =>
       match (s.ths u).op with
-      | .pop =>
+      | .pop thr =>
         if shortcut s.heap then
-          (s.modTh u (fun x => { x with elem := some (back s.heap.data) })).modTh t
-            (fun x => { x with tmp := u, rem := rest, pc := .p1SzLd, st := 1 })
+          if thr then
+            if guarded then
+              (s.modTh u (fun x => { x with eptr := true })).modTh t (fun x => { x with tmp := u, rem := rest, pc := .p1Status, st := 2 })
+            else unwind s t u
+          else
+            (s.modTh u (fun x => { x with elem := some (back s.heap.data) })).modTh t
+              (fun x => { x with tmp := u, rem := rest, pc := .p1SzLd, st := 1 })
         else s.modTh t (fun x => { x with tmp := u, rem := rest, pc := .p1Defer })
       | .push v thr =>
         if thr then s.modTh t (fun x => { x with tmp := u, rem := rest, pc := .p1Status, st := 2 })
         else { s.modTh t (fun x => { x with tmp := u, rem := rest, pc := .p1SzLd, st := 1 }) with
                heap := { s.heap with data := s.heap.data ++ [v] } }
   | .p1Defer =>
-    adv1 ((s.modTh th.tmp (fun x => { x with next := th.dfr.head? })).modTh t (fun x => { x with dfr := x.tmp :: x.dfr, pc := .p1Adv })) t
+    adv1 ((s.modTh th.tmp (fun x => { x with next := th.dfr.head?.map (nodeOf s) })).modTh t (fun x => { x with dfr := x.tmp :: x.dfr, pc := .p1Adv })) t
   | .p1SzLd => s.modTh t (fun x => { x with pc := .p1SzSt, sz := s.mySize })
   | .p1SzSt =>
     { s.modTh t (fun x => { x with pc := .p1Status }) with
-      mySize := match (s.ths th.tmp).op with | .pop => th.sz - 1 | .push _ _ => th.sz + 1 }
+      mySize := match (s.ths th.tmp).op with | .pop _ => th.sz - 1 | .push _ _ => th.sz + 1 }
   | .p1Status =>
     let s1 : St := { s.modTh th.tmp (fun x => { x with status := th.st, nSet := x.nSet + 1 }) with
       unset := s.unset.erase th.tmp,
       heap := match (s.ths th.tmp).op with
-        | .pop => { s.heap with data := s.heap.data.dropLast }
+        | .pop _ => if th.st = 1 then { s.heap with data := s.heap.data.dropLast } else s.heap
         | .push _ _ => s.heap }
     adv1 (s1.modTh t (fun x => { x with pc := .p1Adv })) t
   | .p2Load =>
@@ -400,6 +481,10 @@ def aggStep (s : St) (t : Tid) : St :=
     | [] => adv2 (s.modTh t (fun x => { x with pc := .p2Adv })) t
     | u :: rest =>
       if s.heap.data.length = 0 then s.modTh t (fun x => { x with tmp := u, rem := rest, pc := .p2Status, st := 2 })
+      else if popThrows (s.ths u).op then
+        if guarded then
+          (s.modTh u (fun x => { x with eptr := true })).modTh t (fun x => { x with tmp := u, rem := rest, pc := .p2Status, st := 2 })
+        else unwind s t u
       else if shortcut s.heap then
         (s.modTh u (fun x => { x with elem := some (back s.heap.data) })).modTh t
           (fun x => { x with tmp := u, rem := rest, pc := .p2SzLd, st := 1 })
@@ -420,14 +505,14 @@ def aggStep (s : St) (t : Tid) : St :=
 
 /-- the aggregator + priority queue as an interleaving system; `todo t` are the calls thread `t` makes,
 `h0` the initial (heapified) contents -/
-def Agg (todo : Tid → List Op) (h0 : Heap) : Sys St :=
+def Agg (todo : Tid → List (Op × Nat)) (h0 : Heap) : Sys St :=
   { init := { heap := h0, mySize := h0.data.length, ths := fun t => { todo := todo t } }, step := aggStep }
 
 /-! ### what access a step performs (for the E-SHIM trace replay) -/
 
-def showO : Option Tid → String
+def showO : Option (Tid × Nat) → String
   | none => "0"
-  | some u => s!"op{u}"
+  | some (u, c) => s!"op{u}.{c}"
 
 /-- `<tid> <kind> <var> <order> <a> <b> <ok>` exactly as `verif::format_event` prints the access that
 `aggStep s t` models; "-" if the thread has nothing to do. -/
@@ -435,23 +520,23 @@ def describe (s : St) (t : Tid) : String :=
   let th := s.ths t
   match th.pc with
   | .idle => if th.todo.isEmpty then "-" else s!"{t} load st{t} rlx 0 0 1"
-  | .ldPend => s!"{t} load pending rlx {showO s.plist.head?} 0 1"
+  | .ldPend => s!"{t} load pending rlx {showO (headNode s)} 0 1"
   | .stNext => s!"{t} store nx{t} rlx {showO th.res} 0 1"
   | .cas =>
-    if s.plist.head? = th.res then s!"{t} cas pending sc {showO th.res} op{t} 1"
-    else s!"{t} cas pending sc {showO th.res} {showO s.plist.head?} 0"
+    if headNode s = th.res then s!"{t} cas pending sc {showO th.res} {showO (some (nodeOf s t))} 1"
+    else s!"{t} cas pending sc {showO th.res} {showO (headNode s)} 0"
   | .spin => s!"{t} load st{t} acq {th.status} 0 1"
   | .waitBusy => s!"{t} load busy acq {s.busy} 0 1"
   | .setBusy => s!"{t} store busy rlx 1 0 1"
-  | .grab => s!"{t} xchg pending sc {showO s.plist.head?} 0 1"
+  | .grab => s!"{t} xchg pending sc {showO (headNode s)} 0 1"
   | .p1Load | .p2Load =>
     match th.rem with
     | [] => "-"
     | u :: _ => s!"{t} load nx{u} rlx {showO (s.ths u).next} 0 1"
-  | .p1Defer => s!"{t} store nx{th.tmp} rlx {showO th.dfr.head?} 0 1"
+  | .p1Defer => s!"{t} store nx{th.tmp} rlx {showO (th.dfr.head?.map (nodeOf s))} 0 1"
   | .p1SzLd | .p2SzLd => s!"{t} load my_size rlx {s.mySize} 0 1"
   | .p1SzSt =>
-    let v := match (s.ths th.tmp).op with | .pop => th.sz - 1 | .push _ _ => th.sz + 1
+    let v := match (s.ths th.tmp).op with | .pop _ => th.sz - 1 | .push _ _ => th.sz + 1
     s!"{t} store my_size rlx {v} 0 1"
   | .p2SzSt => s!"{t} store my_size rlx {th.sz - 1} 0 1"
   | .p1Status | .p2Status => s!"{t} store st{th.tmp} rel {th.st} 0 1"
@@ -459,12 +544,21 @@ def describe (s : St) (t : Tid) : String :=
   | .rdStatus => s!"{t} load st{t} sc {th.status} 0 1"
   | .p1Adv | .p2Adv => "-"
 
+/-- `<op>@<cls>` (address class of the operation's node, default 0) -/
+def parseOpAt (w : String) : Option (Op × Nat) :=
+  match w.splitOn "@" with
+  | [o] => (parseOp o).map (fun x => (x, 0))
+  | [o, c] => match parseOp o, Proto.nat? c with
+    | some x, some c => some (x, c)
+    | _, _ => none
+  | _ => none
+
 /-- driver state of `c13agg` -/
 structure DAgg where
   s : St := {}
   n : Nat := 0        -- number of threads declared
 
-def initHeap (xs : List Nat) : Heap := xs.foldl (fun h x => (handleOps h [.push x false]).1) ⟨[], 0⟩
+def initHeap (xs : List Nat) : Heap := xs.foldl (fun h x => (handleOps h [.push x false]).heap) ⟨[], 0⟩
 
 open Proto in
 def driveAgg (d : DAgg) (ws : List String) : DAgg × String :=
@@ -474,7 +568,7 @@ def driveAgg (d : DAgg) (ws : List String) : DAgg × String :=
     | some xs => let h := initHeap xs; ({ d with s := { d.s with heap := h, mySize := h.data.length } }, showHeap h)
     | none => (d, "bad-op")
   | "thread" :: os =>
-    match os.mapM parseOp with
+    match os.mapM parseOpAt with
     | some ops =>
       let t := d.n
       ({ s := d.s.modTh t (fun x => { x with todo := ops }), n := d.n + 1 }, s!"thread {t}")
